@@ -287,11 +287,17 @@ class Folder:
             m = re.search(r"std::array<.*,\s*(\d+)(UL|ul)?>\s*$", rty.replace("const ", "").strip())
             if m:
                 count = ("c", int(m.group(1)))
+            # a built-in array T[N] (range-for over `const T (&)[N]`): N iterations
+            m2 = re.search(r"\[(\d+)\]\s*$", rty.replace("const ", "").strip())
+            if m2 and "std::" not in rty.split("[")[0][-1:]:
+                count = ("c", int(m2.group(1)))
             self._stmt(s.get("body"), body_items)
             # a counter incremented once per element equals the number of elements afterwards
             for x in walk(s.get("body")):
                 if x["k"] == "UnaryOperator" and x["op"] == "++" and var_ref(x["sub"]) is not None and var_ref(x["sub"]) != (lv or {}).get("did"):
-                    self.env[var_ref(x["sub"])] = count
+                    # ... provided it started at zero
+                    started = self.env.get(var_ref(x["sub"]))
+                    self.env[var_ref(x["sub"])] = count if started in (None, ("c", 0)) else ("unk", "counter that does not start at 0")
             if body_items:
                 items.append(Item("REP", count=count, body=body_items))
             return
@@ -304,7 +310,8 @@ class Folder:
                 self.env[iv] = ("i",)
             cond = strip(s.get("cond"))
             count = ("unk", "loop")
-            if isnode(cond) and cond["k"] == "BinaryOperator" and cond["op"] in ("<", "!=") and var_ref(cond["lhs"]) == iv:
+            starts_at_zero = isnode(init) and init["k"] == "DeclStmt" and init.get("decls") and const_val(init["decls"][0].get("init")) == 0
+            if isnode(cond) and cond["k"] == "BinaryOperator" and cond["op"] in ("<", "!=") and var_ref(cond["lhs"]) == iv and starts_at_zero:
                 count = self.sym(cond["rhs"])
             self._stmt(s.get("body"), body_items)
             if body_items:
